@@ -28,6 +28,7 @@ import common, minifont
 SCRIPTS = ("DFLT", "latn")
 POS = {1: [400], 2: [400, 700], 3: [400, 550, 700]}
 MAX_REPLAY_FILES = 40
+MAX_CONFIRM = 3          # violations re-run through a full minifont.materialize before they are reported
 
 
 # ----------------------------------------------------------------------------- case -> MiniFont
@@ -110,10 +111,28 @@ def dirpath(ctx, *parts):
     return d
 
 
+def interest(case):
+    """How many pairs of kerning entries (of any masters) compete for a glyph pair: their first-side and
+    second-side coverages intersect while their keys differ.  Only used to order the sample."""
+    ents = []
+    for m in case["masters"]:
+        for lk, ln, rk, rn, v in m["kern"]:
+            lc = {ln} if lk == "g" else {g for g, n in m["g1"].items() if n == ln}
+            rc = {rn} if rk == "g" else {g for g, n in m["g2"].items() if n == rn}
+            ents.append(((lk, ln, rk, rn), lc, rc, v))
+    n = 0
+    for i in range(len(ents)):
+        for j in range(i + 1, len(ents)):
+            a, b = ents[i], ents[j]
+            if a[1] & b[1] and a[2] & b[2] and (a[0] != b[0] or a[3] != b[3]):
+                n += 1
+    return min(n, 4)
+
+
 class Materializer:
     """Fast materialisation: the glyph layers / fontinfo / lib / designspace of a (masters, default) shape never
-    change between cases, so they are written once by minifont.materialize (the skeleton) and every case
-    directory links to them and only gets its own groups.plist / kerning.plist (written exactly as minifont
+    change between cases, so they are written once by minifont.materialize (the skeleton); reusable slot
+    directories link to them and a case only writes its own groups.plist / kerning.plist (exactly as minifont
     does).  Violations are re-checked with a full minifont.materialize of the case (see confirm())."""
 
     SHARED = ("metainfo.plist", "fontinfo.plist", "lib.plist", "layercontents.plist", "glyphs")
@@ -133,27 +152,34 @@ class Materializer:
             self.skel[key] = (d, open(ds).read() if key[0] > 1 else "", ["Kern-%s.ufo" % m["name"] for m in mf["masters"]])
         return self.skel[key]
 
-    def write(self, case, d):
+    def write(self, case, slot):
+        """Materialise `case` in slot number `slot` of its shape; returns (source path, output font path).
+        Slot directories are created once (links to the skeleton) and reused: a case only rewrites the
+        groups.plist / kerning.plist of its masters (the box's disk is slow under load)."""
         sk, ds_text, ufos = self.skeleton(case)
-        os.makedirs(d, exist_ok=True)
+        d = os.path.join(self.ctx.work, "slots", os.path.basename(sk), "%05d" % slot)
+        if not os.path.isdir(d):
+            os.makedirs(d)
+            for ufo in ufos:
+                u = os.path.join(d, ufo)
+                os.mkdir(u)
+                for f in self.SHARED:
+                    os.symlink(os.path.join(sk, ufo, f), os.path.join(u, f))
+            if len(ufos) > 1:
+                with open(os.path.join(d, "Kern.designspace"), "w") as f:
+                    f.write(ds_text)
         for m, ufo in zip(case["masters"], ufos):
             u = os.path.join(d, ufo)
-            os.mkdir(u)
-            for f in self.SHARED:
-                os.symlink(os.path.join(sk, ufo, f), os.path.join(u, f))
             groups, kerning = master_plists(m, case["den"])
-            if groups:
-                with open(os.path.join(u, "groups.plist"), "wb") as f:
-                    plistlib.dump(groups, f, sort_keys=True)
-            if kerning:
-                with open(os.path.join(u, "kerning.plist"), "wb") as f:
-                    plistlib.dump(kerning, f, sort_keys=True)
-        if len(ufos) == 1:
-            return os.path.join(d, ufos[0])         # a lone master is compiled as a plain UFO (as minifont does)
-        ds = os.path.join(d, "Kern.designspace")
-        with open(ds, "w") as f:
-            f.write(ds_text)
-        return ds
+            for name, obj in (("groups.plist", groups), ("kerning.plist", kerning)):
+                path = os.path.join(u, name)
+                if obj:
+                    with open(path, "wb") as f:
+                        plistlib.dump(obj, f, sort_keys=True)
+                elif os.path.exists(path):
+                    os.remove(path)
+        src = os.path.join(d, ufos[0]) if len(ufos) == 1 else os.path.join(d, "Kern.designspace")
+        return src, os.path.join(d, "out.ttf")
 
 
 # ----------------------------------------------------------------------------- judging
@@ -236,6 +262,9 @@ class Judge:
                            {"compile": comp})
             return False
         if (kern or {}).get("outcome") != "ok":
+            msg = (kern or {}).get("message") or ""
+            if "read error" not in msg and "cannot parse font" not in msg and (kern or {}).get("outcome") != "panic":
+                raise common.ToolError("vh kerning failed on %s for a reason that is not the font: %s" % (label, msg[:300]))
             self.violation("gpos-unreadable", case, cid,
                            "%s: the compiled font's GPOS cannot be evaluated: %s %s" %
                            (label, (kern or {}).get("outcome"), ((kern or {}).get("message") or "")[:300]),
@@ -338,16 +367,18 @@ def run_cases(ctx, judge, mat, cases, tagp, deadline, procs=8, chunk=2000):
     """Materialise, compile and evaluate generated cases chunk by chunk until `deadline`; judged in place.
     Returns the number of cases processed."""
     done = 0
-    for lo in range(0, len(cases), chunk):
-        if done and time.time() > deadline:
+    lo = 0
+    while lo < len(cases):
+        late = time.time() > deadline
+        if done and late:
             break
-        part = cases[lo:lo + chunk]
-        base = dirpath(ctx, "cases", "%s_%d" % (tagp, lo))
+        # out of budget before the first chunk: the design-level counterexamples and a token sample still run
+        n = chunk if not late else max(40, sum(1 for _, c in cases[:chunk] if not c["designOk"]))
+        part = cases[lo:lo + n]
+        lo += n
         creqs, kreqs = [], []
         for k, (cid, case) in enumerate(part):
-            d = os.path.join(base, "%05d" % k)
-            ds = mat.write(case, d)
-            ttf = os.path.join(d, "out.ttf")
+            ds, ttf = mat.write(case, k)
             creqs.append({"tag": cid, "src": ds, "out": ttf, "threads": 1})
             locs = norm_locs(case)
             kreqs.append({"tag": cid, "font": ttf, "glyphs": case["glyphs"], "structure": True,
@@ -363,9 +394,8 @@ def run_cases(ctx, judge, mat, cases, tagp, deadline, procs=8, chunk=2000):
                 raise common.ToolError("vh kerning gave no result for %s: %s" % (cid, k))
             before = judge.viol
             judge.judge(case, cid, c, k)
-            if judge.viol > before and judge.viol <= MAX_REPLAY_FILES:
+            if judge.viol > before and judge.viol <= MAX_CONFIRM:
                 confirm(ctx, judge, case, cid)
-        shutil.rmtree(base, ignore_errors=True)
         done += len(part)
     common.log("%s: %d of %d emitted cases compiled and compared (%d violations so far)" %
                (tagp, done, len(cases), judge.viol))
@@ -670,9 +700,10 @@ def plan(ctx):
     ]
 
 
-# wall-clock budgets of the compile stage (the box is shared: compile throughput varies 5x with its load);
-# what was emitted but not compiled in time is counted in the evidence
-BUDGET_S = {"quick": 125, "thorough": 19 * 60}
+# wall-clock budgets of the compile stage, counted from the arrival of the first TLC cases (the box is shared:
+# compile throughput varies 10x with its load); what was emitted but not compiled in time is counted in the
+# evidence (coverage.configs)
+BUDGET_S = {"quick": 100, "thorough": 17 * 60}
 
 
 def main(ctx):
@@ -703,7 +734,7 @@ def main(ctx):
     total_tlc_cases = 0
     exhaustive = True
     jobs = plan(ctx)
-    deadline = t0 + BUDGET_S[ctx.tier]
+    deadline = None          # set when the first cases arrive: the budget is compile time, TLC runs alongside
     per_cfg = {}
     with concurrent.futures.ThreadPoolExecutor(3 if ctx.quick else 2) as ex:
         fix_future = ex.submit(prepare_fixtures, ctx, ctx.quick)
@@ -727,7 +758,9 @@ def main(ctx):
                     judge.drift("insert-resolved-conflict", "case %s: two keys resolve one output pair to different "
                                 "values (kern.rs says this cannot happen)" % cid)
             random.Random(ctx.seed).shuffle(fresh)
-            fresh.sort(key=lambda x: x[1]["designOk"])          # design-level counterexamples first
+            # design-level counterexamples first, then sources whose entries interact (the compile budget may
+            # cut the tail: what is cut is the least interesting part of the seeded sample)
+            fresh.sort(key=lambda x: (x[1]["designOk"], -interest(x[1])))
             bad_design = [c for _, c in fresh if not c["designOk"]]
             if bad_design:
                 print("DESIGN-LEVEL: %s: in %d of %d emitted cases the transcribed design (Kerning.tla) gives some pair "
@@ -735,9 +768,11 @@ def main(ctx):
                       (tag, len(bad_design), len(fresh)), flush=True)
             # a fair share of what is left of the budget
             now = time.time()
+            if deadline is None:
+                deadline = now + BUDGET_S[ctx.tier]
             share = max(deadline - now, 0) / pending
             pending -= 1
-            n = run_cases(ctx, judge, mat, fresh, tag, now + share, chunk=160 if ctx.quick else 2000)
+            n = run_cases(ctx, judge, mat, fresh, tag, now + share, chunk=160 if ctx.quick else 500)
             per_cfg[tag] = {"cfg": r.cfg, "mode": r.mode, "tlc_cases": len(cases) + skipped, "emitted": len(fresh),
                             "compiled": n, "design_level_counterexamples": len(bad_design)}
             if sim is not None or int(env.get("C09_STRIDE", 1)) > 1 or n < len(fresh):
